@@ -937,6 +937,14 @@ spec(lean="traverse_dfs", module="AlgoTraverse", file="swcgeom/core/swc_utils/ba
      callbacks={"enter": ("(enter : σ → Int → Option T → σ × T)", 2, "T"), "leave": ("(leave : σ → Int → List K → σ × K)", 2, "K")})
 
 
+spec(lean="sort_nodes_impl", module="AlgoSort", file="swcgeom/core/swc_utils/normalizer.py", func="sort_nodes_impl",
+     params=["topology"],
+     vars={"topology": "(List Int) × (List Int)", "old_ids": "List Int", "old_pids": "List Int", "id_map": "List Int",
+           "new_pids": "List Int", "new_id": "Int", "first_root": "Int", "s": "List (Int × Int)", "old_id": "Int", "new_pid": "Int",
+           "id2idx": "Dict Int Int", "indices": "List Int", "new_ids": "List Int"},
+     ret="((List Int) × (List Int)) × (List Int)", fuel=True)
+
+
 def regenerate(modules=None):
     """rewrite Gen/<module>.lean for the given modules (default: all) from the current sources; returns failure messages"""
     fails = []
